@@ -18,6 +18,7 @@ import GunYu.Proofs.BisyncTags
 import GunYu.Proofs.BisyncUnit
 import GunYu.Proofs.BisyncTxn
 import GunYu.Proofs.BisyncCommit
+import GunYu.Proofs.BisyncRdb
 import GunYu.Props.C11
 import GunYu.Proofs.BisyncBlocks
 
@@ -322,6 +323,66 @@ theorem rdb_unit_single_slot (r : Resolver) (replaceHashTag : Bool) (key : Bytes
     obtain ⟨c, hc, hxc⟩ := List.mem_flatMap.mp e
     rw [hk c hc x hxc, hslot]
   · exact controlKeys_slot cp k u p hcp (by rw [hslot]; exact hashSlotSpec_lt _) rfl x e
+
+/-- **Snapshot phase, the command list included** (closes the hypothesis `hk`
+    of `rdb_unit_single_slot`). The unit `buildBisyncRdbReplayUnit` assembles for
+    a keyed entry — RESTORE form, or the expanded form: what the object parser
+    hands over with names lower-cased and the source key rewritten to the
+    target key at the key positions of the static tables, behind `del <target>`
+    (first bin, keyExists = replace) and followed by `pexpire <target> <ttl>` —
+    has, in cluster mode, the slot of the target key, and EVERY business key
+    (as the builder's resolver names them, whatever the COMMAND GETKEYS
+    fall-back answers) and every control key of its commit transaction hashes
+    to that slot. The only hypothesis left is about the object parser's output
+    (`RawOn`: its commands name, by the static tables, key positions that all
+    hold the entry's key and do not move under the rewriting). -/
+theorem rdb_unit_single_slot_built (fb : Bytes → List Bytes → Fb) (useRestore firstBin replaceExisting replaceHashTag : Bool)
+    (key : Bytes) (raw : List Cmd) (ttl : Option Bytes) (ttlArg dump : Bytes)
+    (cp : Bytes) (k : CommitKind) (p : Payload) (hcp : lbrace ∉ cp)
+    (hraw : ∀ c ∈ raw, RawOn key (rdbTargetKey replaceHashTag key) c) :
+    let tgt := rdbTargetKey replaceHashTag key
+    let u := buildRdbUnit true replaceHashTag key (rdbCommands useRestore firstBin replaceExisting key tgt raw ttl ttlArg dump)
+    u.slot = hashSlotSpec tgt ∧
+    ∀ x ∈ unitKeys (resolverWith fb) u ++ controlKeys cp k u p, hashSlotSpec x = u.slot := by
+  intro tgt u
+  apply rdb_unit_single_slot (resolverWith fb) replaceHashTag key _ cp k p hcp
+  intro c hc x hx
+  have hemp : key.isEmpty = true → tgt = key := by
+    intro h
+    have hk : key = [] := List.isEmpty_iff.mp h
+    show rdbTargetKey replaceHashTag key = key
+    rw [hk]; rfl
+  have hon : OnKey tgt c := by
+    unfold rdbCommands at hc
+    split at hc
+    · exact rdbRestore_onKey tgt ttlArg dump _ c hc
+    · exact rdbExpanded_onKey key tgt raw _ ttl hemp hraw c hc
+  exact resolved_of_onKey fb tgt c hon x hx
+
+/-- the commands the object parsers emit for strings, hashes, lists, sets,
+    sorted sets and stream entries are of the tables' first-key class: on the
+    entry's key they satisfy `RawOn`, whatever else they carry -/
+theorem raw_first_key_commands (src tgt : Bytes) (rest : List Bytes) :
+    RawOn src tgt ⟨[115,101,116], src :: rest⟩ ∧ RawOn src tgt ⟨[104,115,101,116], src :: rest⟩ ∧          -- set, hset
+    RawOn src tgt ⟨[114,112,117,115,104], src :: rest⟩ ∧ RawOn src tgt ⟨[115,97,100,100], src :: rest⟩ ∧    -- rpush, sadd
+    RawOn src tgt ⟨[122,97,100,100], src :: rest⟩ ∧ RawOn src tgt ⟨[120,97,100,100], src :: rest⟩ ∧         -- zadd, xadd
+    RawOn src tgt ⟨[83,69,84], src :: rest⟩ ∧ RawOn src tgt ⟨[72,83,69,84], src :: rest⟩ :=                   -- SET, HSET (as emitted)
+  ⟨rawOn_generic _ _ _ _ (by decide +kernel) (by decide +kernel), rawOn_generic _ _ _ _ (by decide +kernel) (by decide +kernel),
+   rawOn_generic _ _ _ _ (by decide +kernel) (by decide +kernel), rawOn_generic _ _ _ _ (by decide +kernel) (by decide +kernel),
+   rawOn_generic _ _ _ _ (by decide +kernel) (by decide +kernel), rawOn_generic _ _ _ _ (by decide +kernel) (by decide +kernel),
+   rawOn_generic _ _ _ _ (by decide +kernel) (by decide +kernel), rawOn_generic _ _ _ _ (by decide +kernel) (by decide +kernel)⟩
+
+-- a hash of two fields under replace-hashtag, first bin, keyExists = replace, with an expiry:
+-- del / hset / hset / pexpire, every key rewritten to the target key "ua{b}"
+example : (rdbCommands false true true [117,123,97,125,123,98,125] (rdbTargetKey true [117,123,97,125,123,98,125])
+    [⟨[72,83,69,84], [[117,123,97,125,123,98,125], [102], [117,123,97,125,123,98,125]]⟩, ⟨[72,83,69,84], [[117,123,97,125,123,98,125], [103], [118]]⟩]
+    (some [84]) [84] [68]).map (fun c => (c.name, c.args.headD [])) =
+    [(rDel, [117,97,123,98,125]), ([104,115,101,116], [117,97,123,98,125]), ([104,115,101,116], [117,97,123,98,125]),
+     (rPexpire, [117,97,123,98,125])] := by decide +kernel
+-- … and the VALUE equal to the source key is left alone (only key positions are rewritten)
+example : ((rdbCommands false false false [117,123,97,125,123,98,125] (rdbTargetKey true [117,123,97,125,123,98,125])
+    [⟨[72,83,69,84], [[117,123,97,125,123,98,125], [102], [117,123,97,125,123,98,125]]⟩] none [84] [68]).map (·.args)) =
+    [[[117,97,123,98,125], [102], [117,123,97,125,123,98,125]]] := by decide +kernel
 
 -- replace-hashtag moves the key to another slot; the unit follows the target key
 example : rdbTargetKey true [117,123,97,125,123,98,125] = [117,97,123,98,125] := by decide   -- "u{a}{b}" ↦ "ua{b}"
